@@ -544,6 +544,13 @@ func (w *c01Worker) resumeConsistency(tok []byte) {
 	w.hit("resume-consistency-tokens")
 }
 
+// c01FirstUnitIs reports whether the tuple body starts with exactly unit u0 (no shorter/longer unit is a prefix of
+// another: escapes are 6 bytes and start with a backslash, raw units are 3 bytes and start with 0xED).
+func c01FirstUnitIs(body []byte, u0 int) bool {
+	u := gjEscapeUnits[u0]
+	return len(body) >= len(u) && bytes.Equal(body[:len(u)], u)
+}
+
 // ---------- jobs
 
 type c01Job struct {
@@ -757,6 +764,36 @@ func runC01(c *Ctx) {
 			w.add([]byte(`[{"`+p[0]+`":1},{"`+p[1]+`":2}]`), "name-pairs")
 		}
 	})
+	// 5b. the escape-pair family: every ordered pair (thorough: triple) of code-unit classes × hex case and of raw
+	// surrogate encodings, in every syntactic position, plus every truncation of the bare literal and of the array form
+	maxTuple := 2
+	if thorough {
+		maxTuple = 3
+	}
+	for n := 1; n <= maxTuple; n++ {
+		n := n
+		for u0 := range gjEscapeUnits {
+			u0 := u0
+			addJob(func(w *c01Worker, r *rand.Rand) {
+				gjEscapeBodies(n, func(body []byte) {
+					// the tuple enumeration is shared out by first unit: keep the tuples whose first unit is u0
+					if !c01FirstUnitIs(body, u0) {
+						return
+					}
+					gjStringContexts(body, func(t []byte) { w.add(t, fmt.Sprintf("escape-tuple-%d", n)) })
+					lit := append(append([]byte(`"x`), body...), `y"`...)
+					for k := 1; k < len(lit); k++ {
+						w.add(lit[:k], "escape-tuple-truncated")
+					}
+					arr := append(append([]byte(`["`), body...), `"]`...)
+					for k := 2; k < len(arr); k++ {
+						w.add(arr[:k], "escape-tuple-truncated")
+					}
+					w.resumeConsistency(lit)
+				})
+			})
+		}
+	}
 	// 6. parseHexUint16 / hasEscapedUTF16Prefix
 	addJob(func(w *c01Worker, r *rand.Rand) {
 		hexAlpha := []byte{'0', '9', 'a', 'f', 'A', 'F', 'g', 'G', '/', ':', '@', '`', 'd', 'D'}
